@@ -287,11 +287,13 @@ func (c *RemoteClient) Ready(ctx context.Context, nextMessageID uint64) error {
 	logger.InfoWithFields(ctx, []logger.Field{
 		logger.Uint64("next_message_id", nextMessageID),
 	}, "Sending ready message")
+	// Set the next message id before sending because the first message can be received before
+	// the send returns.
+	c.nextMessageID.Store(nextMessageID)
 	if err := c.sendDirect(ctx, &Message{Payload: m}); err != nil {
 		return err
 	}
 
-	c.nextMessageID.Store(nextMessageID)
 	c.handshakeComplete.Store(true)
 	logger.Info(ctx, "Marked handshake complete")
 	handshakeCompleteChannel := c.handshakeCompleteChannel.Load()
@@ -2223,9 +2225,11 @@ func (c *RemoteClient) handleMessage(ctx context.Context, m *Message) error {
 				logger.Uint64("expected_message_id", nextMessageID),
 				logger.Uint64("message_id", msg.ID),
 			}, "Wrong message ID in tx message")
+		} else if err := c.addHandlerMessage(ctx, m); err != nil {
+			// Not delivered, so it must not be counted as processed.
+			logger.Error(ctx, "Failed to add message to handler channel : %s", err)
 		} else {
 			c.nextMessageID.Store(msg.ID + 1)
-			c.addHandlerMessage(ctx, m)
 		}
 
 	case *TxUpdate:
@@ -2240,9 +2244,11 @@ func (c *RemoteClient) handleMessage(ctx context.Context, m *Message) error {
 				logger.Uint64("expected_message_id", nextMessageID),
 				logger.Uint64("message_id", msg.ID),
 			}, "Wrong message ID in tx update message")
+		} else if err := c.addHandlerMessage(ctx, m); err != nil {
+			// Not delivered, so it must not be counted as processed.
+			logger.Error(ctx, "Failed to add message to handler channel : %s", err)
 		} else {
 			c.nextMessageID.Store(msg.ID + 1)
-			c.addHandlerMessage(ctx, m)
 		}
 
 	case *Headers:
